@@ -60,6 +60,8 @@ pub struct AppSpec {
     pub geom_truncate: usize,
     /// every third edge's stored linestring repeats one of its points (a zero-length segment, as digitised data has)
     pub geom_repeat: bool,
+    /// some vertices have no identifier: their row of the identifier table is blank
+    pub uuid_blanks: bool,
     /// road class / vehicle restriction data for the edge matcher (independent of the frontier)
     pub matcher_classes: Option<Vec<u8>>,
     pub matcher_vehicle_rows: Option<Vec<(usize, String, f64, String)>>,
@@ -98,6 +100,7 @@ impl AppSpec {
             geom_points: 2,
             geom_truncate: 0,
             geom_repeat: false,
+            uuid_blanks: false,
             matcher_classes: None,
             matcher_vehicle_rows: None,
             energy: None,
@@ -259,6 +262,16 @@ pub fn edge_geometry(spec: &AppSpec, e: usize) -> Vec<(f32, f32)> {
         return out;
     }
     pts
+}
+
+/// the identifier stored for vertex v in this application's table (blank for every fifth vertex from 2 on when the
+/// table has blanks)
+pub fn uuid_for(spec: &AppSpec, v: usize) -> String {
+    if spec.uuid_blanks && v % 5 == 2 {
+        String::new()
+    } else {
+        uuid_of(v)
+    }
 }
 
 pub fn uuid_of(v: usize) -> String {
@@ -491,7 +504,7 @@ pub fn write_config(spec: &AppSpec, dir: &Path) -> std::io::Result<(PathBuf, Str
             )),
             OutputPlugin::Uuid => {
                 let p = dir.join("uuids.txt");
-                files.push((p.clone(), (0..net.nv()).map(uuid_of).collect::<Vec<_>>().join("\n") + "\n"));
+                files.push((p.clone(), (0..net.nv()).map(|v| uuid_for(spec, v)).collect::<Vec<_>>().join("\n") + "\n"));
                 outs.push(format!("{{ type = \"uuid\", uuid_input_file = {} }}", tstr(p.to_str().unwrap_or(""))));
             }
         }
